@@ -376,7 +376,21 @@ class Shim:
         builtins.open = bopen
 
         os.getuid = lambda: S.uid
-        os.isatty = lambda fd: bool(S.step.get('tty', False)) if fd == 0 else O['os.isatty'](fd)
+
+        def isatty(fd):
+            if fd == 0:
+                return S.lib('isatty', [], lambda: bool(S.step.get('tty', False)))
+            return O['os.isatty'](fd)
+        os.isatty = isatty
+        try:
+            import trashcli.lib.my_input as mi
+            orig_input = mi._my_input
+
+            def rec_input(prompt=''):
+                return S.lib('input', [prompt], lambda: orig_input(prompt))
+            mi._my_input = rec_input
+        except Exception:
+            pass
 
         def randint(a, b):
             if S.randints:
